@@ -74,7 +74,7 @@ type symCtx struct {
 	seen         map[string]types.Type // input paths read (discovery)
 	allocN       int
 	copyHook     func(c *symCtx, dst, src sv, n int64) (handled, ok bool) // the builtin copy, before its default model
-	opaqueNonNil map[string]bool                                            // callees treated as "returns some non-nil pointer"
+	opaqueNonNil map[string]bool                                          // callees treated as "returns some non-nil pointer"
 	// hook intercepts a call before it is evaluated (static, closure or
 	// dynamically dispatched).  handled=false lets evaluation proceed.
 	hook func(c *symCtx, callee *ssa.Function, args []sv) (res []sv, handled bool, ok bool)
